@@ -68,7 +68,9 @@ CLAIMS = {
             'Not decided: connect tokens (PrivateConnectToken/ConnectToken round trips).'),
     'C17': ('Usage contract of the AEAD in Packet::encode/decode: sealed exactly once with (sequence, key), AAD binds version, protocol id and prefix byte, nonce is the '
             'decoded sequence, ciphertext is everything after the sequence bytes (Kani, complete).',
-            'Assumed: the AEAD itself. Not decided: nonce uniqueness across server global_sequence / per-connection sequence (NetcodeServer, out of reach).'),
+            'Server (Verus, U19): NetcodeServer::new starts global_sequence at 2^63 and the invariant global_sequence >= 2^63 is preserved; every handshake reply (challenge, denied) is sealed with a nonce of the upper half, '
+            'the first packet of a session with the session\'s own counter (lower half, history assumption < 2^63): the two classes never share a nonce under the server-to-client key they both use. '
+            'Assumed: the AEAD itself. Not decided: generate_payload_packet / update_client (per-connection counter increments, by reading).'),
     'C19': ('Size relation: decode yields ConnectionRequest only from >= 1078 bytes; Challenge encodes to <= 333 and ConnectionDenied to <= 25 bytes, both < 1078 (Kani, complete). '
             'Control flow (Verus, U19, verbatim): process_packet_internal / handle_connection_request answer a datagram with at most one datagram, addressed to the sender, of at most 333 bytes, and only for a request whose token is authentic, '
             'unexpired and not presented from another address before; every error path returns no datagram.',
